@@ -17,6 +17,8 @@ import traceback
 VERIF = os.path.dirname(os.path.dirname(os.path.abspath(__file__)))
 PYTHON = "/venv/bin/python"
 KNOWN_FINDINGS = os.path.join(VERIF, "known_findings.txt")
+# sensitivity runs against mutated copies write their output elsewhere (VERIF_EVIDENCE=<dir>)
+EVIDENCE = os.environ.get("VERIF_EVIDENCE") or os.path.join(VERIF, "evidence")
 
 PROPS = ["C%02d" % i for i in range(1, 21)]
 
@@ -335,7 +337,7 @@ def run_shard(prop, tier, seed, shard, nshards, out_path):
 
 
 def write_replay(prop, entry, index):
-    directory = os.path.join(VERIF, "evidence", "replays", prop)
+    directory = os.path.join(EVIDENCE, "replays", prop)
     os.makedirs(directory, exist_ok=True)
     name = f"{prop}-{fingerprint(entry['sig'])}-{index}.json"
     path = os.path.join(directory, name)
@@ -352,7 +354,7 @@ def write_replay(prop, entry, index):
 def run_check(prop, tier, seed, nshards):
     module = load_module(prop)
     t0 = time.time()
-    shard_dir = os.path.join(VERIF, "evidence", ".shards")
+    shard_dir = os.path.join(EVIDENCE, ".shards")
     os.makedirs(shard_dir, exist_ok=True)
     nshards = min(nshards, getattr(module, "MAX_SHARDS", nshards))
     env_vars = dict(os.environ)
@@ -423,7 +425,7 @@ def run_check(prop, tier, seed, nshards):
         samples = [v["case"] for v in violations.values()][:3]
         evaluations = max(evaluations, sum(v["count"] for v in violations.values()))
     replay_paths = []
-    shutil.rmtree(os.path.join(VERIF, "evidence", "replays", prop), ignore_errors=True)
+    shutil.rmtree(os.path.join(EVIDENCE, "replays", prop), ignore_errors=True)
     for index, (key, entry) in enumerate(sorted(violations.items())):
         replay_paths.append(write_replay(prop, entry, index))
     for key, hit in known_hits.items():
@@ -458,7 +460,7 @@ def run_check(prop, tier, seed, nshards):
     }
     if errors:
         evidence["coverage"]["harness_errors"] = [e[-1500:] for e in errors]
-    path = os.path.join(VERIF, "evidence", f"{prop}.json")
+    path = os.path.join(EVIDENCE, f"{prop}.json")
     with open(path, "w") as handle:
         json.dump(evidence, handle, indent=1, default=repr)
         handle.write("\n")
